@@ -453,6 +453,9 @@ func checkOptNilSinks(c *core.Ctx, rule string, u *astUniverse, funcs []*ssa.Fun
 					if originRefined(u, f, fa) {
 						continue
 					}
+					if o.guardedAtCallSites(fn, fa, f) {
+						continue
+					}
 					bad = true
 					c.Report(rule, key, use.Pos(), fmt.Sprintf("%s.%s can be nil (%s) but is dereferenced here without a dominating non-nil test", u.fieldOwner[f], f.Name(), o.optional[f]),
 						"load: "+c.Prog.Loc(ld.Pos()), "use: "+describeUse(use))
@@ -641,4 +644,54 @@ func (o *optNil) fromGuardedContainer(fn *ssa.Function, v ssa.Value, f *types.Va
 		return false
 	}
 	return ok(v)
+}
+
+// guardedAtCallSites: the node is a parameter of fn, and every static call of fn in the module hands over a node
+// whose field f was tested non-nil on an edge dominating the call (`if stmt.Value != nil { l.lintInitialValue(stmt) }`):
+// the test moved to the callers when the helper was extracted.
+func (o *optNil) guardedAtCallSites(fn *ssa.Function, fa *ssa.FieldAddr, f *types.Var) bool {
+	p, ok := fa.X.(*ssa.Parameter)
+	if !ok {
+		return false
+	}
+	idx := -1
+	for i, q := range fn.Params {
+		if q == p {
+			idx = i
+		}
+	}
+	if idx < 0 {
+		return false
+	}
+	sites := 0
+	for _, g := range o.prog.ModuleFuncs() {
+		for _, b := range g.Blocks {
+			for _, in := range b.Instrs {
+				call, isCall := in.(*ssa.Call)
+				if !isCall || call.Common().StaticCallee() != fn || idx >= len(call.Common().Args) {
+					continue
+				}
+				sites++
+				arg := call.Common().Args[idx]
+				guarded := false
+				for _, blk := range g.Blocks {
+					for _, i2 := range blk.Instrs {
+						fa2, isFA := i2.(*ssa.FieldAddr)
+						if !isFA || core.FieldOf(fa2) != f || !sameBase(fa2.X, arg) || fa2.Referrers() == nil {
+							continue
+						}
+						for _, r := range *fa2.Referrers() {
+							if l2, isLd := r.(*ssa.UnOp); isLd && core.DominatedByNil(l2, b, false) {
+								guarded = true
+							}
+						}
+					}
+				}
+				if !guarded {
+					return false
+				}
+			}
+		}
+	}
+	return sites > 0
 }
